@@ -441,6 +441,22 @@ func auditEdits(base *idl.Program) []edit {
 			}})
 		case d.Service != nil:
 			sn := d.Service.Name
+			if sn == "KidOfLocal" {
+				// a method leaves the child while its parent gains a method of that name with another
+				// signature: the child's callers meet something else under the old name
+				out = append(out, edit{Name: "service " + sn + "/method-removed-while-parent-gains-an-incompatible-namesake", Label: "breaking", Apply: func(p *idl.Program) {
+					k := findService(p, sn)
+					var keep []*idl.Method
+					for _, m := range k.Methods {
+						if m.Name != "kidPing" {
+							keep = append(keep, m)
+						}
+					}
+					k.Methods = keep
+					par := findService(p, "BaseSvc")
+					par.Methods = append(par.Methods, &idl.Method{Name: "kidPing", Ret: idl.T("i64"), Args: []*idl.Field{{ID: 1, Name: "x", Req: "default", Type: idl.T("i32")}}})
+				}})
+			}
 			if sn == "Svc" || sn == "Plain" {
 				out = append(out, edit{Name: "service " + sn + "/remove", Label: "breaking", Apply: func(p *idl.Program) {
 					removeDecl(p, func(d *idl.Decl) bool { return d.Service != nil && d.Service.Name == sn })
